@@ -63,12 +63,13 @@ ASSUMPTIONS = [
     'value, or any other exception (broadcasting), is a violation. The older adapters '
     'without ",all-metrics" request only tn-free quantities (precision, recall, f1, threat '
     'score, ...) and keep their behaviour',
-    'binary / multiclass-indicator input never uses a vocabulary (the class positions are '
-    'fixed by the encoding: [pos_label, rest] / the columns; any dummy vocab gives the '
-    'one-batch value): a merge_states that demands one under macro average is reported '
-    '(key macro-merge-needs-vocab-for-fixed-position-encodings), it is not among the accepted '
-    'refusals; the refusal stays accepted for multiclass / multiclass-multioutput labels '
-    'without vocab, where the vocabulary is what keeps the class positions stable',
+    'binary / multiclass-indicator input with macro average and no vocab: merge_states '
+    'refuses with the same ValueError naming the vocab although these encodings never read '
+    'it (any dummy vocab gives the one-batch value). Reported by two audits; kept as an '
+    'accepted, counted refusal (macro_fixed_position_no_vocab_cases): the docstring of '
+    '`vocab` states the precondition for distributed macro averaging without restricting it '
+    'to label encodings and an upstream test pins the refusal on the default binary input '
+    '(DESIGN 15, third round)',
     'average=binary on multiclass labels is only generated with exactly two classes in the '
     'pool (more raise by design); which class is "positive" is not documented, so only the '
     'invariance (several batches == one batch) is demanded, never a value',
